@@ -77,9 +77,21 @@ def run_static(res, pid, gd, lp):
 
 
 def run(res):
+    from .. import l1
     core.std_proof_coverage(res, "C12", extra_obligations=len(OBLIGATIONS))
     gd, lp = core.gen_lockprog("C12")
     found, obl = run_static(res, "C12", gd, lp)
+    # dynamic part: error outcomes followed by further calls on the same objects, against the real core over the
+    # virtual transport; the watchdog (quiescence detector) reports goroutines parked on a mutex
+    cov = dict(res.coverage)
+    l1.run(res, "C12", "core", "Model.Core Model.CoreOracle", "", "",
+           [("c12", "c12_oracle", "a Dial (or Listen) that had failed for a network reason could not be retried: address in use")],
+           "the socket core behaves differently from the model (Model/Core.v) after an error outcome",
+           gocmd="l2core", prelude="Definition step_rec := kstep_rec.\n",
+           check_fn="(fun h => kcheck_from true true kinit 0 h)", ambig_fn="(fun h => kambiguous_from true true kinit 0 h)")
+    dyn = {k: res.coverage.get(k) for k in ("evaluations", "distinct_nontrivial", "steps", "stimulus_distribution", "histories_truncated_as_ambiguous")}
+    res.coverage.update(cov)
+    res.coverage["dynamic_core_histories"] = dyn
     text = open(lp).read()
     nf = int(re.search(r"n_functions_emitted : N := (\d+)", text).group(1))
     nt = int(re.search(r"n_functions_total : N := (\d+)", text).group(1))
